@@ -1,45 +1,19 @@
 /* contracts/attrpath.h -- libxcm/core/attr_path.c (C10: no name string causes a crash; C19: paths are canonical)
- *
- * The string under parse is the object xv_ap_base (ghost pointer) of xv_ap_cap bytes holding a string of EXACTLY
- * xv_ap_len characters (AP_BASE_STR: NUL at xv_ap_len, no NUL before; bytes behind the NUL are arbitrary).  The
- * component parsers get a pointer INTO that object; their contracts speak about absolute positions in it, so that facts
- * about one arbitrary position xv_ap_q (never assigned) add up, over the calls made by attr_path_parse, to facts about
- * every position of the string.
- */
+ * ghost state, string layout and the AP_* character classes: harness/attrpath/_ghost.h */
 #ifndef XV_ATTRPATH_H
 #define XV_ATTRPATH_H
 #include "contracts/begin.h"
 
-/* ---- ghost (havocked by every harness after xv_ghost_havoc()) */
-const char *xv_ap_base; /* the object holding the string handed to attr_path_parse */
-size_t xv_ap_len;       /* its strlen */
-size_t xv_ap_j;         /* arbitrary component number (never assigned) */
-size_t xv_ap_q;         /* arbitrary character position (never assigned) */
-
-/* Layout: the object has AP_STR_MAX bytes and the string occupies its LAST xv_ap_len+1 bytes (the NUL is the last byte
- * of the object, so reading past the NUL is an out-of-bounds obligation).  A fixed object size keeps the solver away
- * from variable-size arrays.  Strings of 0..299 characters are explored: 0..255 are within the length gate, 256..299 are
- * over-long; a longer string takes the same path as those (strlen, compare, return NULL). */
-#define AP_STR_MAX 300
-#define AP_END (AP_STR_MAX - 1)
+_Static_assert(ATTR_PATH_INDEX_START == '[' && ATTR_PATH_INDEX_END == ']' && ATTR_PATH_KEY_DELIM == '.', "AP_SPECIAL in _ghost.h matches attr_path.h");
 #define AP_BASE_FRESH (__CPROVER_is_fresh(xv_ap_base, AP_STR_MAX))
-#ifdef XV_AP_EXP1
-#define AP_BASE_STR (xv_ap_len <= AP_END && xv_ap_base[AP_END] == 0)
-#else
 #define AP_BASE_STR (xv_ap_len <= AP_END && xv_ap_base[AP_END] == 0 && \
                      __CPROVER_forall { size_t q_; (q_ < AP_END) ==> (q_ >= AP_END - xv_ap_len ==> xv_ap_base[q_] != 0) })
-#endif
 #define AP_START (xv_ap_base + (AP_END - xv_ap_len))
-#define AP_OFF(p) ((size_t)__CPROVER_POINTER_OFFSET(p))
-#define AP_REM(p) (AP_END - AP_OFF(p))     /* strlen(p) for p inside the string */
 /* p points at a character (or the NUL) of a string that passed the length gate */
 /* (pointer_in_range_dfcc, not same_object: symex resolves dereferences through value sets, an assumed same_object on a
  * nondeterministic pointer would leave its pointee unconstrained) */
 #define AP_INSIDE(p) (xv_ap_len <= ATTR_PATH_NAME_MAX && __CPROVER_pointer_in_range_dfcc(xv_ap_base, (p), xv_ap_base + AP_END) && \
                       AP_OFF(p) >= AP_END - xv_ap_len)
-#define AP_SPECIAL(c) ((c) == ATTR_PATH_INDEX_START || (c) == ATTR_PATH_INDEX_END || (c) == ATTR_PATH_KEY_DELIM)
-#define AP_KEYCHAR(c) ((c) != 0 && !AP_SPECIAL(c))
-#define AP_DIGIT(c) ((c) >= '0' && (c) <= '9')
 #define AP_RV __CPROVER_return_value
 /* a key component made by the parser: own object, own NUL-terminated key of n >= 1 key characters */
 #define AP_IS_KEY(c, n) (__CPROVER_is_fresh((c), sizeof(struct attr_pcomp)) && (c)->type == attr_pcomp_type_key && \
@@ -76,9 +50,9 @@ __CPROVER_ensures(AP_RV > 0 ==> AP_IS_INDEX(*comp))
 __CPROVER_ensures(AP_RV > 0 ==> (xv_ap_strtol_used == (size_t)AP_RV - 1 && path_str[AP_RV - 1] == ATTR_PATH_INDEX_END && \
                                  xv_ap_strtol_val >= 0 && xv_ap_strtol_val < LONG_MAX && (*comp)->index == (size_t)xv_ap_strtol_val))
 /* between the brackets there is nothing but what strtol consumed: no NUL, no special character */
-__CPROVER_ensures((AP_RV > 0 && xv_ap_q + 1 < (size_t)AP_RV) ==> AP_KEYCHAR(path_str[xv_ap_q]))
+__CPROVER_ensures((AP_RV > 0 && xv_ap_q < (size_t)AP_RV - 1) ==> AP_KEYCHAR(path_str[xv_ap_q]))
 /* PO[C19] attr_pcomp_parse_index.digits_only */
-__CPROVER_ensures((AP_RV > 0 && xv_ap_q + 1 < (size_t)AP_RV) ==> AP_DIGIT(path_str[xv_ap_q]))
+__CPROVER_ensures((AP_RV > 0 && xv_ap_q < (size_t)AP_RV - 1) ==> AP_DIGIT(path_str[xv_ap_q]))
 ;
 #include "contracts/end.h"
 #endif
